@@ -59,9 +59,6 @@ def _grid_classes():
             d["_e"] = edges
             d["_spacing"] = spacing
 
-        def __setattr__(self, k, v):
-            self.__dict__[k] = v
-
         @property
         def shape(self):
             return self.__dict__["_shape"]
